@@ -105,6 +105,7 @@ theorem stab_step (l : Life.S) (r : Rec) : Stab l (Life.step l r) := by
     · exact Stab.refl l
     · exact stab_ensureThread _ pid tid
   | sched pid tid t km ip chain => exact stab_ensureThread _ pid tid
+  | otherEvent pid tid t km ip chain => exact stab_ensureThread _ pid tid
   | exit pid tid t =>
     rw [lstep_exit]
     split
